@@ -176,6 +176,53 @@ def key_strings(tier, rng):
     return out
 
 
+CASE_VALUES = ["lowercase", "UPPERCASE", "PascalCase", "camelCase", "snake_case", "SCREAMING_SNAKE_CASE", "kebab-case",
+               "SCREAMING-KEBAB-CASE", "bogus", "", "CamelCase", "camelcase"]
+
+
+def naming_config_source(idents):
+    """structs without serde rename_all, commands and parameters, enum variants, all named by the hostile identifiers"""
+    fields = "\n".join("    pub %s: u8," % i for i in idents)
+    cmds = "\n".join("#[tauri::command]\npub fn %s(%s: Plain, app: tauri::AppHandle) -> Plain { todo!() }" % (i if i != "_" else "under", i)
+                     for i in idents if i != "_")
+    return ("use serde::{Serialize, Deserialize};\n#[derive(Serialize, Deserialize)]\npub struct Plain {\n%s\n}\n"
+            "#[derive(Serialize, Deserialize)]\npub enum Kinds { %s }\n%s\n#[tauri::command]\npub fn kinds() -> Kinds { todo!() }\n"
+            % (fields, ", ".join(("V" + i) if not i[0].isalpha() else i for i in idents if i != "_"), cmds))
+
+
+HOSTILE_IDENTS = [["\u00e9cole"], ["__"], ["___x"], ["\u00e9"], ["\u4e2d\u6587"], ["_\u00e9t\u00e9"], ["r#type"], ["x_\u00e9"], ["\U0001D4B3y"],
+                  ["\u00e9cole", "__", "r#match", "a__b_", "_lead", "\u00dcber_x"]]
+
+
+def big_project(rng, ntypes, shape, files=1):
+    """a project with many types / commands / events / fields: names in random (non-alphabetical) relation to the
+    dependency edges, which go in both alphabetical directions"""
+    names = ["T%03d%s" % (i, rng.choice(["", "x", "Y"])) for i in range(ntypes)]
+    order = names[:]
+    rng.shuffle(order)
+    deps = {}
+    for idx, n in enumerate(order):
+        if shape == "dag":
+            cands = order[:idx]                  # acyclic, direction unrelated to the alphabet
+        elif shape == "chain":
+            cands = order[idx - 1:idx] if idx else []
+        else:
+            cands = order                         # cycles allowed
+        deps[n] = rng.sample(cands, min(len(cands), rng.randint(0, 3))) if cands else []
+    per_file = {}
+    for i, n in enumerate(names):
+        fields = ["    pub id: u32,"] + ["    pub f%d: %s," % (j, WRAPS[(i + j) % len(WRAPS)] % d) for j, d in enumerate(deps[n])]
+        if i % 7 == 0:
+            fields += ["    pub w%02d: Option<String>," % j for j in range(70)]
+        item = ("#[derive(Debug, Clone, Serialize, Deserialize)]\npub struct %s {\n%s\n}\n" % (n, "\n".join(fields))) if i % 5 else \
+               ("#[derive(Debug, Clone, Serialize, Deserialize)]\npub enum %s { A, B%s }\n" % (n, "".join(", C%d" % j for j in range(i % 70))))
+        cmd = "#[tauri::command]\npub fn cmd_%s(app: tauri::AppHandle, a: %s, b: Vec<%s>) -> Result<%s, String> { app.emit(\"ev-%s\", a.clone()).ok(); todo!() }\n" % (
+            n.lower(), n, names[(i * 7 + 3) % ntypes], names[(i * 3 + 1) % ntypes], n.lower())
+        per_file.setdefault("lib.rs" if files == 1 else "m%02d/f%03d.rs" % (i % 9, i % files), []).append(item + cmd)
+    head = "use serde::{Serialize, Deserialize};\nuse std::collections::{HashMap, BTreeMap, HashSet};\n"
+    return {f: head + "\n".join(items) for f, items in per_file.items()}
+
+
 RULES = ["lowercase", "UPPERCASE", "PascalCase", "camelCase", "snake_case", "SCREAMING_SNAKE_CASE", "kebab-case",
          "SCREAMING-KEBAB-CASE", "event"]
 
@@ -189,6 +236,10 @@ def naming_cases(tier, rng):
     for n in names:
         for r in RULES:
             out.append((r, n))
+    # the configured default_field_case / default_parameter_case: every convention name and unknown values
+    for n in names[:400] + names[-30:] + ["\u00e9cole", "__", "_", "\u00e9", "_\u00e9", "x\u00e9", "\u4e2d_a"]:
+        for v in CASE_VALUES:
+            out.append(("default:" + v, n))
     # enum variants through compute_variant_name (apply_to_variant)
     vnames = list(words(["a", "B", "_", "1", E2, "É", E4], 3 if tier == "quick" else 4)) + \
         ["Active", "InProgress", "HTTPError", "Id", "État", "V_1", "Self_", "ÀB", "aB", "A", "Éa", "Z42", "ǅx", "İ", "ß"]
